@@ -72,6 +72,55 @@ def mutate_params_inplace(built, desc, rng):
     return kind
 
 
+def replace_elements_inplace(M, built, desc, rng):
+    """Replaces element OBJECTS of a live (already stepped) network through the public API: the link on
+    an existing edge by a new Link with other parameters, the origin/destination of a node by another
+    object.  Returns (desc', label); `built` is updated.  Anything remembered about the replaced object
+    (its link, its parameters, its states) would make the next step disagree with the reference."""
+    import copy
+
+    from vf.refmodel import topology
+
+    d = copy.deepcopy(desc)
+    ins, outs, org, dst = topology(d)
+    kind = rng.choice(("link", "link", "origin", "dest"))
+    if kind == "link":
+        l = rng.choice(d["links"])
+        l["N"] = rng.choice((1, 2, 3))
+        l["lam"] = rng.choice((1, 2, 3, 4))
+        l["L"] = round(rng.uniform(0.4, 1.6), 3)
+        l["rho_max"] = round(rng.uniform(160.0, 200.0), 2)
+        l["rho_crit"] = round(rng.uniform(25.0, 40.0), 2)
+        l["v_free"] = round(rng.uniform(90.0, 130.0), 2)
+        if l.get("vsl") is not None:
+            l["vsl"] = sorted(rng.sample(range(l["N"]), rng.randint(0, l["N"])))
+        l["name"] = l["name"] + "r"
+        _n, links, _o, _d = D.make_objects(M, {"nodes": [], "links": [l], "origins": [], "dests": []})
+        built.links[l["id"]] = links[l["id"]]
+        built.net.add_link(built.nodes[l["up"]], links[l["id"]], built.nodes[l["down"]])
+    elif kind == "origin" and d["origins"]:
+        o = rng.choice(d["origins"])
+        allowed = ("ramp", "simple") if ins[o["node"]] else ("ideal", "main", "ramp", "simple")
+        o["kind"] = rng.choice(allowed)
+        o["eq"] = {"ramp": rng.choice(("in", "out")), "simple": rng.choice(("limited", "unlimited"))}.get(o["kind"])
+        o["C"] = round(rng.uniform(1200.0, 4500.0), 1) if o["kind"] in ("ramp", "simple") else None
+        o["name"] = o["name"] + "r"
+        _n, _l, origins, _d = D.make_objects(M, {"nodes": [], "links": [], "origins": [o], "dests": []})
+        built.origins[o["id"]] = origins[o["id"]]
+        built.net.add_origin(origins[o["id"]], built.nodes[o["node"]])
+    elif kind == "dest" and d["dests"]:
+        x = rng.choice(d["dests"])
+        x["kind"] = rng.choice(("free", "cong"))
+        x["name"] = x["name"] + "r"
+        _n, _l, _o, dests = D.make_objects(M, {"nodes": [], "links": [], "origins": [], "dests": [x]})
+        built.dests[x["id"]] = dests[x["id"]]
+        built.net.add_destination(dests[x["id"]], built.nodes[x["node"]])
+    else:
+        return desc, None
+    built.desc = d
+    return d, kind
+
+
 def numpy_steps(M, rec, rng, n_nets, draws=3, opts_prob=0.0, on_case=None, regimes=None,
                 before_case=None, mutate_prob=0.35,
                 scalar_shapes=("vec1", "0d", "float")):
@@ -134,6 +183,43 @@ def numpy_steps(M, rec, rng, n_nets, draws=3, opts_prob=0.0, on_case=None, regim
                 pass
             if on_case:
                 on_case(case, built)
+        # element objects replaced through the API on the already stepped network, stepped again; and the
+        # surviving element objects re-used in a second network with other links
+        if rng.random() < 0.3:
+            desc3, what = replace_elements_inplace(M, built, built.desc, rng)
+            if what:
+                regime, vals = g.values(desc3)
+                pars = g.pars()
+                rec.count("numpy_cases_after_element_replacement")
+                rec.seen("element_replacements", what)
+                case = {"desc": desc3, "vals": vals, "pars": pars, "opts": {}, "engine": "numpy", "regime": regime,
+                        "shape": shp, "after_replacement_of": what}
+                if before_case:
+                    before_case(case, built)
+                try:
+                    built.net.step(init_conditions=drive.np_init(built, vals, "vec1"), engine=NE(), **drive.step_pars(pars))
+                except Exception:
+                    pass
+                if on_case:
+                    on_case(case, built)
+        if rng.random() < 0.15:
+            desc4 = G.redraw_link_params(built.desc, rng)
+            reuse = dict(built.origins)
+            reuse.update(built.dests)
+            built2 = D.build(M, desc4, D.random_ops(desc4, rng), reuse=reuse)
+            regime, vals = g.values(desc4)
+            pars = g.pars()
+            rec.count("numpy_cases_with_reused_origin_destination_objects")
+            case = {"desc": desc4, "vals": vals, "pars": pars, "opts": {}, "engine": "numpy", "regime": regime,
+                    "shape": shp, "reused_objects": "origins+destinations of an already stepped network"}
+            if before_case:
+                before_case(case, built2)
+            try:
+                built2.net.step(init_conditions=drive.np_init(built2, vals, "vec1"), engine=NE(), **drive.step_pars(pars))
+            except Exception:
+                pass
+            if on_case:
+                on_case(case, built2)
 
 
 def small_valid_steps(M, rec, rng, nmax, k=0, n=1, before_case=None, seed=0, kinds_full=True, only_n=None):
@@ -260,6 +346,8 @@ def closed_loop(M, rec, rng, n_sims, steps, on_step=None, before_case=None):
         rec.count("simulations")
         alive = True
         info = {"clamped": 0.0}
+        eng = NE()  # one engine instance and one set of pre-allocated buffers for the whole run
+        buffers = drive.np_init(built, vals, "vec1") if s % 2 == 0 else None
         for k in range(steps):
             if k % 30 == 0:
                 for o in desc["origins"]:
@@ -286,13 +374,21 @@ def closed_loop(M, rec, rng, n_sims, steps, on_step=None, before_case=None):
             for l in desc["links"]:
                 if l.get("vsl") is not None:
                     vals[l["id"]]["v_ctrl"] = list(ctrl[l["id"]])
-            ic = drive.np_init(built, vals, "vec1")
+            if buffers is None:
+                ic = drive.np_init(built, vals, "vec1")
+            else:  # refresh the same arrays in place (the usual simulation loop)
+                ic = buffers
+                fresh = drive.np_init(built, vals, "vec1")
+                for el_, d_ in fresh.items():
+                    for name_, arr_ in d_.items():
+                        buffers[el_][name_][...] = arr_
+                rec.count("sim_steps_with_buffers_refreshed_in_place")
             rec.count("sim_steps")
             if before_case:
                 before_case({"desc": desc, "vals": vals, "pars": pars, "engine": "numpy",
                              "opts": {"positive_next_speed": True}, "sim_step": k}, built)
             try:
-                built.net.step(init_conditions=ic, engine=NE(), positive_next_speed=True,
+                built.net.step(init_conditions=ic, engine=eng, positive_next_speed=True,
                                **drive.step_pars(pars))
                 nxt = drive.read_next(built)
             except Exception:
